@@ -228,17 +228,6 @@ Definition g_import (L : lang) (s : schema) (i : nat) : bool :=
                      | LGo => true
                      end) (f_imports (getf s i)).
 
-(* [empty-enum]: Python default of an enum field is fields()[0]; the IntEnum class of a
-   memberless enum has an empty body *)
-Definition enum_ref_nonempty (s : schema) (r : ref) : bool :=
-  match r_k r with
-  | RkEnum => match enum_members s r with Some (_ :: _) => true | _ => false end
-  | _ => true
-  end.
-Definition g_enum_nonempty (s : schema) (i : nat) : bool :=
-  forallb (enum_ref_nonempty s) (file_refs s i) &&
-  forallb (fun fd => match fd_def fd with DEnum _ _ [] => false | _ => true end) (flat_file (getf s i)).
-
 (* [go-unused-import] *)
 Definition g_go_used (s : schema) (i : nat) : bool :=
   forallb (fun mj => existsb (fun r => match r_via r with [m] => String.eqb m (fst mj) | _ => false end)
